@@ -25,6 +25,8 @@ type SetOp struct {
 	Val  any   `json:"val"`
 	// Text overrides how the value is spelled in --set syntax (e.g. "TRUE", "Null"); "" = default.
 	Text string `json:"text,omitempty"`
+	// ItemText does the same for the items of a {a,b} list ("" = default spelling of that item).
+	ItemText []string `json:"itemText,omitempty"`
 }
 
 func (o SetOp) PathString() string {
@@ -130,6 +132,11 @@ func setInList(l []any, path []Seg, val any) ([]any, bool) {
 	return l, false
 }
 
+// LookAlike: strings that resemble a typed literal but are NOT one in the documented --set grammar
+// (only true/false/null in any letter case, "0" and integers without a leading zero are typed).
+var LookAlike = map[string]bool{"t": true, "T": true, "f": true, "F": true, "y": true, "n": true, "yes": true, "no": true, "Yes": true, "NO": true,
+	"on": true, "off": true, "On": true, "OFF": true, "~": true, "nil": true, "none": true, "tru": true, "falsy": true, "nul": true}
+
 // Features describes which grammar features an expression exercises (for evidence keys).
 type Features struct {
 	Escape, Index, NestedIndex, Sparse, Typed, List, Unicode, Deep bool
@@ -227,8 +234,8 @@ func scalarText(v any, text string, inList bool, f *Features) string {
 		f.Typed = true
 		return strconv.FormatInt(int64(t), 10)
 	case string:
-		if t != "" && (t[0] == '0' || t[0] == '-') {
-			f.Typed = true // leading-zero / dash strings probe the typing rule
+		if t != "" && (t[0] == '0' || t[0] == '-') || LookAlike[t] {
+			f.Typed = true // leading-zero / dash strings and literal look-alikes probe the typing rule
 		}
 		return escVal(t, inList, f)
 	}
@@ -245,8 +252,12 @@ func (o SetOp) Expr(kind string) (string, Features) {
 		if l, ok := o.Val.([]any); ok {
 			f.List = true
 			var items []string
-			for _, it := range l {
-				items = append(items, scalarText(it, "", true, &f))
+			for i, it := range l {
+				txt := ""
+				if i < len(o.ItemText) {
+					txt = o.ItemText[i]
+				}
+				items = append(items, scalarText(it, txt, true, &f))
 			}
 			return p + "={" + strings.Join(items, ",") + "}", f
 		}
